@@ -48,14 +48,24 @@ type MRun struct {
 }
 
 type Model struct {
-	Runs    []*MRun
-	Store   string
-	TooLong bool
+	Runs        []*MRun
+	Store       string
+	TooLong     bool
+	Unpredicted bool
 }
 
 const visitCap = 200
 
 type mstate struct {
+	// cancellation-aware interpretation (aware == true): a cancel() scripted
+	// inside a callback, or a deadline passing on the model's clock, sets
+	// cancelled; from then on no new exec attempt and no new node is started
+	// (C05) while everything else follows C01/C02 unchanged. aware == false
+	// gives the uncancelled run the C05/C11 oracles relate the log to.
+	aware       bool
+	cancelled   bool
+	deadline    int64 // ns, -1 = none
+	unpredicted bool  // a cancellation landed where the model does not decide the outcome (inside a batch)
 	sc     *Scn
 	visits []int
 	now    int64
@@ -80,7 +90,32 @@ func (m *mstate) emit(e MEv) int {
 	return len(m.run.Main) - 1
 }
 
-func (m *mstate) sleep(ms int) { m.now += int64(ms) * 1e6 }
+func (m *mstate) sleep(ms int) {
+	m.now += int64(ms) * 1e6
+	if m.aware && m.deadline >= 0 && m.now > m.deadline {
+		m.cancelled = true
+	}
+}
+
+// during is called for every scripted callback invocation.
+func (m *mstate) during(o Outcome) {
+	m.sleep(o.SleepMs)
+	if m.aware && o.Cancel {
+		m.cancelled = true
+	}
+}
+
+// retryWait advances over a retry wait; false if the context ended it.
+func (m *mstate) retryWait(ms int) bool {
+	end := m.now + int64(ms)*1e6
+	if m.aware && m.deadline >= 0 && m.deadline > m.now && m.deadline < end {
+		m.now = m.deadline
+		m.cancelled = true
+		return false
+	}
+	m.now = end
+	return true
+}
 
 func hasPhase(n *NodeSpec, i int) bool {
 	switch n.Kind {
@@ -95,8 +130,17 @@ func hasPhase(n *NodeSpec, i int) bool {
 	return true
 }
 
-func runModel(sc *Scn) *Model {
-	m := &mstate{sc: sc, visits: make([]int, len(sc.Nodes)), last: map[int]int{}}
+// runModel: the cancellation-aware model (what the run must look like).
+func runModel(sc *Scn) *Model { return runModelMode(sc, true) }
+
+// runModelUncancelled: the same scenario with every cancellation ignored.
+func runModelUncancelled(sc *Scn) *Model { return runModelMode(sc, false) }
+
+func runModelMode(sc *Scn, aware bool) *Model {
+	m := &mstate{sc: sc, visits: make([]int, len(sc.Nodes)), last: map[int]int{}, aware: aware, deadline: -1}
+	if sc.Ctx.Kind == "deadline" {
+		m.deadline = sc.Ctx.DeadlineUs * 1000
+	}
 	mod := &Model{}
 	runs := sc.Runs
 	if runs < 1 {
@@ -123,6 +167,7 @@ func runModel(sc *Scn) *Model {
 		mod.Runs = append(mod.Runs, m.run)
 	}
 	mod.TooLong = m.long
+	mod.Unpredicted = m.unpredicted
 	var parts []string
 	for id, v := range m.last {
 		parts = append(parts, fmt.Sprintf("last_n%d=%d", id, v))
@@ -154,6 +199,9 @@ func (m *mstate) runFlow(n *NodeSpec) (string, string) {
 		if m.steps > visitCap {
 			m.long = true
 			return "", "toolong"
+		}
+		if m.cancelled {
+			return "", "ctx" // no further node is started
 		}
 		a, e := m.runNode(cur)
 		if e != "" {
@@ -188,9 +236,14 @@ func (m *mstate) runLeaf(n *NodeSpec) (string, string) {
 	vs := n.visit(v)
 	cfg := n.config()
 	pdesc := "nil"
+	if m.cancelled {
+		m.visits[n.ID]--
+		m.run.Visits = m.run.Visits[:len(m.run.Visits)-1]
+		return "", "ctx"
+	}
 	if hasPhase(n, 0) {
 		m.emit(MEv{Kind: "prep_start", N: n.ID, V: v, S1: "S0"})
-		m.sleep(vs.Prep.SleepMs)
+		m.during(vs.Prep)
 		tok := fmt.Sprintf("n%dv%dp", n.ID, v)
 		if vs.Prep.Fail != "" {
 			m.run.FailEnd = m.emit(MEv{Kind: "prep_end", N: n.ID, V: v, S1: "err:" + tok + "X"})
@@ -209,13 +262,16 @@ func (m *mstate) runLeaf(n *NodeSpec) (string, string) {
 		lastEnd := -1
 		ok := false
 		for a := 1; a <= budget; a++ {
-			if a > 1 && wait > 0 {
-				m.sleep(wait)
+			if m.cancelled {
+				return "", "ctx" // no new attempt
+			}
+			if a > 1 && wait > 0 && !m.retryWait(wait) {
+				return "", "ctx"
 			}
 			o := attemptOutcome(vs.Exec, a)
 			tok := fmt.Sprintf("n%dv%de%d", n.ID, v, a)
 			m.emit(MEv{Kind: "exec_start", N: n.ID, V: v, A: a, S1: pdesc})
-			m.sleep(o.SleepMs)
+			m.during(o)
 			switch o.Fail {
 			case "":
 				edesc = payDesc(o.Pay, tok)
@@ -242,11 +298,11 @@ func (m *mstate) runLeaf(n *NodeSpec) (string, string) {
 				case vs.Fb == nil:
 					lastEnd = m.emit(MEv{Kind: "fb_end", N: n.ID, V: v, S1: "err:=" + lastErr})
 				case vs.Fb.Fail != "":
-					m.sleep(vs.Fb.SleepMs)
+					m.during(*vs.Fb)
 					errTok = ftok + "X"
 					lastEnd = m.emit(MEv{Kind: "fb_end", N: n.ID, V: v, S1: "err:" + ftok + "X"})
 				default:
-					m.sleep(vs.Fb.SleepMs)
+					m.during(*vs.Fb)
 					edesc = payDesc(vs.Fb.Pay, ftok)
 					m.emit(MEv{Kind: "fb_end", N: n.ID, V: v, S1: "ok:" + edesc})
 					errTok = ""
@@ -261,7 +317,7 @@ func (m *mstate) runLeaf(n *NodeSpec) (string, string) {
 	action := "default"
 	if hasPhase(n, 2) {
 		m.emit(MEv{Kind: "post_start", N: n.ID, V: v, S1: "S0", S2: pdesc, S3: edesc})
-		m.sleep(vs.Post.SleepMs)
+		m.during(vs.Post)
 		m.last[n.ID] = v
 		m.trail += fmt.Sprintf("n%dv%d;", n.ID, v)
 		tok := fmt.Sprintf("n%dv%dq", n.ID, v)
@@ -297,6 +353,9 @@ func (m *mstate) itemLane(n *NodeSpec, v, i int, it *Item, budget, wait int, tim
 			m.sleep(wait)
 		}
 		o := attemptOutcome(it.Exec, a)
+		if m.aware && o.Cancel {
+			m.cancelled = true
+		}
 		tok := fmt.Sprintf("n%dv%di%de%d", n.ID, v, i, a)
 		mi.Lane = append(mi.Lane, MEv{Kind: "exec_start", N: n.ID, V: v, A: a, I: i + 1, S1: idesc, T: t()})
 		if timed {
@@ -353,8 +412,11 @@ func (m *mstate) runBatch(n *NodeSpec) (string, string) {
 	m.run.Visits = append(m.run.Visits, [2]int{n.ID, v})
 	vs := n.visit(v)
 	cfg := n.config()
+	if m.cancelled {
+		m.unpredicted = true // a batch entered with a done context is C11's subject
+	}
 	m.emit(MEv{Kind: "prep_start", N: n.ID, V: v, S1: "S0"})
-	m.sleep(vs.Prep.SleepMs)
+	m.during(vs.Prep)
 	ptok := fmt.Sprintf("n%dv%dp", n.ID, v)
 	if vs.Prep.Fail != "" {
 		m.run.FailEnd = m.emit(MEv{Kind: "prep_end", N: n.ID, V: v, S1: "err:" + ptok + "X"})
@@ -416,8 +478,11 @@ func (m *mstate) runBatch(n *NodeSpec) (string, string) {
 		if !fixed {
 			s3 = "*"
 		}
+		if m.cancelled {
+			m.unpredicted = true // cancelled while the items were processed
+		}
 		mb.PostIdx = m.emit(MEv{Kind: "post_start", N: n.ID, V: v, S1: "S0", S2: itemsDesc, S3: s3})
-		m.sleep(vs.Post.SleepMs)
+		m.during(vs.Post)
 		m.last[n.ID] = v
 		m.trail += fmt.Sprintf("n%dv%d;", n.ID, v)
 		tok := fmt.Sprintf("n%dv%dq", n.ID, v)
